@@ -37,17 +37,27 @@ def handleFind (op : String) (j : Json) : Option (P Json) :=
       -- the axis actually used: exported by the code (hook) when given, else the model's own resolution
       let axis ← (← arr (fieldD j "axis" (Json.arr #[]))).mapM parseOptNat
       let ax1 := (axis.getD 0 none).getD r1
-      let quats ← (← arr (fieldD j "oracle" (Json.arr #[]))).mapM (fun g => do (← arr g).mapM parseQuat)
-      let oracle := fun (g i : Nat) => (quats.getD g []).getD i Quat.identity
-      let chooseL ← parseNatList (fieldD j "choose" (Json.arr #[]))
-      let choose := fun (g : Nat) (_ : List Nat) => chooseL.getD g 0
+      -- the oracle: quaternion of every candidate tuple as the code computed it, keyed BY TUPLE (the order in which the
+      -- code enumerates candidates depends on a float sort of coordinates that can tie at the last bit; the set does not)
+      let table ← (← arr (fieldD j "oracle" (Json.arr #[]))).mapM (fun e => do
+        pure ((← parseNatList (← field e "t")), (← parseQuat (← field e "q"))))
+      let chosen ← (← arr (fieldD j "chosen" (Json.arr #[]))).mapM parseNatList
+      let lookup := fun (t : List Nat) => ((table.find? (fun e => e.1 = t)).map (·.2)).getD Quat.identity
+      -- candidate tuples do not depend on the oracle: enumerate them once, then index the oracle by (group, position)
+      let (_, groups0) := findGroups inp ax1 (fun _ _ => Quat.identity)
+      let oracle := fun (g i : Nat) => lookup (((groups0.getD g default).tuples).getD i [])
       let (near, groups) := findGroups inp ax1 oracle
+      -- the code's pick among several good candidates of a group (random.choice): the chosen tuple, if it is one of them
+      let choose := fun (g : Nat) (many : List Nat) =>
+        let ts := (groups.getD g default).tuples
+        (many.findIdx? (fun i => chosen.contains (ts.getD i []))).getD 0
       let ms := find inp ax1 oracle choose
       pure (Json.mkObj [
         ("resolved", Json.arr #[natJ r1, natJ r2, optNatJ ro]),
         ("near", nats near),
         ("groups", Json.arr (groups.map (fun g => Json.mkObj [("key", nats g.key),
-            ("tuples", Json.arr (g.tuples.map nats).toArray), ("good", nats g.good)])).toArray),
+            ("tuples", Json.arr (g.tuples.map nats).toArray), ("good", nats g.good),
+            ("good_tuples", Json.arr ((g.good.map (fun i => g.tuples.getD i [])).map nats).toArray)])).toArray),
         ("matches", Json.arr (ms.map (fun m => Json.mkObj [("idx", nats m.idx),
             ("pos", Json.arr (m.pos.map vec3ToJson).toArray)])).toArray)])
   | "rot" => some do
